@@ -3,6 +3,7 @@ package c19
 import (
 	"fmt"
 	"math/bits"
+	"sync/atomic"
 	"testing"
 
 	"github.com/aclements/go-moremath/graph/graphalg"
@@ -129,50 +130,77 @@ func TestSparseSix(t *testing.T) {
 		var count int64
 		choice := [n]int{ci % k, ci / k % k, ci / (k * k)}
 		inner := k * k * k
-		for m := 0; m < inner; m++ {
-			choice[3], choice[4], choice[5] = m%k, m/k%k, m/(k*k)
-			for u := 0; u < n; u++ {
-				g.out[u] = opts[u][choice[u]]
-				g.in[u] = g.inBuf[u][:0]
-				succ[u] = 0
-			}
-			for u := 0; u < n; u++ {
-				for _, v := range g.out[u] {
-					g.in[v] = append(g.in[v], u)
-					succ[u] |= 1 << uint(v)
+		// IDom is called directly here, so a loop inside it that makes no adjacency query would
+		// hang the sweep: the whole chunk (normally some 10 ms) runs under the watchdog, and the
+		// graph being looked at is published so that it can be handed to the full check
+		var current atomic.Uint64
+		sweep := func() {
+			for m := 0; m < inner; m++ {
+				choice[3], choice[4], choice[5] = m%k, m/k%k, m/(k*k)
+				for u := 0; u < n; u++ {
+					g.out[u] = opts[u][choice[u]]
+					g.in[u] = g.inBuf[u][:0]
+					succ[u] = 0
 				}
-			}
-			for _, root := range [2]int{0, n - 1} {
-				want := idomBits(&succ, n, root)
-				g.calls = 0
-				ok := func() (ok bool) {
-					defer func() {
-						if recover() != nil {
-							ok = false
-						}
-					}()
-					got := graphalg.IDom(g, root)
-					if len(got) != n {
-						return false
+				for u := 0; u < n; u++ {
+					for _, v := range g.out[u] {
+						g.in[v] = append(g.in[v], u)
+						succ[u] |= 1 << uint(v)
 					}
-					for v := 0; v < n; v++ {
-						if got[v] != want[v] {
+				}
+				for _, root := range [2]int{0, n - 1} {
+					want := idomBits(&succ, n, root)
+					g.calls = 0
+					current.Store(uint64(m)<<8 | uint64(root))
+					ok := func() (ok bool) {
+						defer func() {
+							if recover() != nil {
+								ok = false
+							}
+						}()
+						got := graphalg.IDom(g, root)
+						if len(got) != n {
 							return false
 						}
+						for v := 0; v < n; v++ {
+							if got[v] != want[v] {
+								return false
+							}
+						}
+						return true
+					}()
+					count++
+					if !ok {
+						adj := make([][]int, n)
+						for u := 0; u < n; u++ {
+							adj[u] = append([]int{}, g.out[u]...)
+						}
+						checkDom.RunEnum(tb, &Case{Adj: adj, Root: root})
+						// the full check disagrees with the light one only if the light reference is wrong
+						tb.Fatalf("harness error: IDom differs from the bit-set reference on %v root %d (want %v) but the full check passes", adj, root, want[:])
 					}
-					return true
-				}()
-				count++
-				if !ok {
-					adj := make([][]int, n)
-					for u := 0; u < n; u++ {
-						adj[u] = append([]int{}, g.out[u]...)
-					}
-					checkDom.RunEnum(tb, &Case{Adj: adj, Root: root})
-					// the full check disagrees with the light one only if the light reference is wrong
-					tb.Fatalf("harness error: IDom differs from the bit-set reference on %v root %d (want %v) but the full check passes", adj, root, want[:])
 				}
 			}
+		}
+		hung := func() (hung bool) {
+			defer func() {
+				if recover() != nil {
+					hung = true
+				}
+			}()
+			ev.Watchdog("IDom (sweep over sparse 6-node graphs)", sweep)
+			return false
+		}()
+		if hung {
+			cur := current.Load()
+			m, root := int(cur>>8), int(cur&0xff)
+			choice[3], choice[4], choice[5] = m%k, m/k%k, m/(k*k)
+			adj := make([][]int, n)
+			for u := 0; u < n; u++ {
+				adj[u] = append([]int{}, opts[u][choice[u]]...)
+			}
+			checkDom.RunEnum(tb, &Case{Adj: adj, Root: root})
+			tb.Fatalf("harness error: the sweep stopped (panic or no return) at %v root %d, but the full check passes there", adj, root)
 		}
 		ev.AddCount("six_node_sparse_graphs_idom_compared", count)
 	})
